@@ -431,6 +431,13 @@ func expectedLike(v ssa.Value, seen map[ssa.Value]bool) bool {
 			})
 		})
 	}
+	if par, ok := v.(*ssa.Parameter); ok {
+		// handed over as a plain argument instead of a state field: the value at the only call site
+		if a := sx.SingleCallArg(par); a != nil {
+			return expectedLike(a, seen)
+		}
+		return false
+	}
 	return sx.All(sx.Origins(v), func(o sx.Origin) bool {
 		return o.Kind == sx.KField && o.Field != nil && o.Field.Name() == "expectedReplies"
 	})
@@ -474,11 +481,28 @@ func (rl *replyLoop) exhaustionTests() (ifs []*ssa.If, edges []sx.Edge, full map
 		if !expectedLike(y, map[ssa.Value]bool{}) {
 			return
 		}
-		isSum := false
-		if s, ok := x.(*ssa.BinOp); ok && s.Op == token.ADD {
-			isSum = (isErrLen(s.X) && isRepLen(s.Y)) || (isErrLen(s.Y) && isRepLen(s.X))
+		sumOf := func(v ssa.Value) bool {
+			s, ok := v.(*ssa.BinOp)
+			return ok && s.Op == token.ADD && ((isErrLen(s.X) && isRepLen(s.Y)) || (isErrLen(s.Y) && isRepLen(s.X)))
 		}
-		if !isSum && !isErrLen(x) {
+		isSum := sumOf(x)
+		if ph, isPhi := x.(*ssa.Phi); isPhi && !isSum && !isErrLen(x) {
+			// the count chosen per flavour: every incoming value is len(errs) or len(errs)+len(replies)
+			all, allSum := len(ph.Edges) > 0, true
+			for _, e := range ph.Edges {
+				switch {
+				case sumOf(e):
+				case isErrLen(e):
+					allSum = false
+				default:
+					all = false
+				}
+			}
+			if !all {
+				return
+			}
+			isSum = allSum
+		} else if !isSum && !isErrLen(x) {
 			return
 		}
 		t, f := sx.CondEdges(ifi)
